@@ -375,7 +375,11 @@ def check_results(c, item):
                 o = DelayVolumeCellState(time=1.5, state=np.array([1.0, 2.0, 3.0]), volume=2.5, queue=q)
             elif what == 'LineageVolumeCellState-time0':
                 # current time exactly 0 with an earlier birth time (a burn-in that ends at t = 0)
-                o = LineageVolumeCellState(v0=1.2, t0=-2.0, state=np.array([0.0, 2.0, 3.0]), volume=2.5, time=0.0, divided=-1, dead=-1)
+                # (set through the setters, as the simulators do: the object that is copied must itself be at t = 0)
+                o = LineageVolumeCellState(v0=1.2, t0=-2.0, state=np.array([0.0, 2.0, 3.0]))
+                o.py_set_volume(2.5); o.py_set_time(0.0)
+                if o.py_get_time() != 0.0 or o.py_get_initial_time() != -2.0:
+                    raise RuntimeError('harness: cell state not at t = 0')
             else:
                 o = LineageVolumeCellState(v0=1.2, t0=0.5, state=np.array([1.0, 2.0, 3.0]), volume=2.5, time=1.5, divided=1, dead=-1)
             o2 = cp(o)
